@@ -23,11 +23,14 @@ RULE = ('HTML documents made of arbitrarily nested forms, fieldsets with 0-2 leg
         'form / document; embedded document with or without html / body, ending in an empty element, a 1-4 deep chain of last '
         'children, text, a comment or another iframe, holding its own forms, submit controls and same-named radios) with the '
         "form's own first submit control and radio group before / after the iframe (a form of an embedded document does not count "
-        'as nested in the form that holds the iframe); built through the API as html / html5 and serialised and re-parsed by html.parser, lxml '
+        'as nested in the form that holds the iframe); forms inside forms of the same document (directly / below 1-2 wrappers, 1-3 levels, '
+        'two inner forms side by side) with same-named radios owned by every level and by the document, the checked member of a name '
+        'at one / two / no / random levels (a radio belongs to its nearest form only); built through the API as html / html5 and serialised and re-parsed by html.parser, lxml '
         'and html5lib. Checked on PY: the partition laws (enabled/disabled, required/optional, read-write/read-only, '
         'in-range/out-of-range, link = any-link, checked ⊆ default, dir ltr xor rtl for rooted HTML elements), the '
         'first-submit and radio-group definitions against an independent reading (:indeterminate = its definition, with "radio" '
-        'being what input[type=radio] selects in the document kind), iframe locality; the same trees as XHTML parsed as XML '
+        'being what input[type=radio] selects in the document kind; for the whole document in one select and for each radio asked on '
+        'its own with match), iframe locality; the same trees as XHTML parsed as XML '
         '(lxml-xml) with type="RADIO" / "Radio" on some checked inputs, where names and the type keyword are case-sensitive; submit '
         'controls and checked radios wrapped in <svg> / <math> (html5lib, XML, API-built with an XHTML root: SVG / MathML elements '
         'named input, no form controls -- the laws quantify over HTML elements); and PY = Lean matcher '
@@ -170,6 +173,30 @@ def laws(soup, state, info):
         pos = {id(e): n for n, e in enumerate(els)}
         bad.append(':indeterminate ≠ its definition (unchecked radios whose group has no checked member, …): got '
                    f'{sorted(pos[i] for i in S[":indeterminate"])}, want {sorted(pos[i] for i in want_ind)}')
+    # The definition is a statement about ONE element: asked about each radio on its own (sv.match: a fresh matcher, nothing
+    # remembered from the radios evaluated before it in a select pass) the answer must be the same
+    single = {id(e) for e in radios if sv.match(':indeterminate', e)}
+    want_single = {i for i in want_ind if any(i == id(r) for r in radios)}
+    if single - rootless != want_single - rootless:
+        pos = {id(e): n for n, e in enumerate(els)}
+        bad.append(':indeterminate, each radio asked on its own (match), ≠ its definition: got '
+                   f'{sorted(pos[i] for i in single)}, want {sorted(pos[i] for i in want_single)}')
+    # How the document exercises the ownership rule: an unchecked named radio owned by a form, no checked member in its own group,
+    # and a checked radio of the same name owned by a form nested inside that form / by a form that encloses it
+    if info.get('nested_forms'):
+        own_of = {id(r): owner(r) for r in radios}
+        for e in radios:
+            if attr(e, 'checked') is not None or not attr(e, 'name') or nm(own_of[id(e)]) != 'form' or id(e) not in want_ind:
+                continue
+            for r in radios:
+                if r is e or attr(r, 'checked') is None or attr(r, 'name') != attr(e, 'name'):
+                    continue
+                if any(p is own_of[id(e)] for p in own_doc_ancestors(r)):
+                    state['unchecked_radio_with_checked_namesake_in_nested_form'] = state.get('unchecked_radio_with_checked_namesake_in_nested_form', 0) + 1
+                    break
+                if nm(own_of[id(r)]) == 'form' and any(p is own_of[id(r)] for p in own_doc_ancestors(e)):
+                    state['unchecked_radio_with_checked_namesake_in_enclosing_form'] = state.get('unchecked_radio_with_checked_namesake_in_enclosing_form', 0) + 1
+                    break
     for b in bad:
         state['bad'].append({'law': b, **info})
     state['checks'] += 1
@@ -394,6 +421,74 @@ def frame_doc(rng, st=None):
         return kind, [('e', 'html', None, None, [], kids)]
     return kind, [k for k in kids if k[0] == 'e' and k[5]][-1:]       # a lone form / container as the root element
 
+# ---------------------------------------------------------------------------------------------
+# forms inside forms: who owns a radio
+# ---------------------------------------------------------------------------------------------
+def nested_radio_doc(rng, st=None):
+    """A document in which forms lie inside forms of the SAME document -- directly or below 1-2 wrappers, 1-3 levels below the
+    outermost form, sometimes two inner forms side by side -- with radios of the same one or two group names owned by EVERY
+    level (and by the document, outside all forms).  A radio belongs to its NEAREST form: for each name the levels that own a
+    checked member are drawn first (one level, two levels, none, every level at random), so a checked radio in an inner form
+    next to unchecked namesakes in the enclosing form, the converse, and a checked radio two levels away are all common; the
+    checked member comes before or after the inner form in document order.  Now and then a level holds an iframe whose embedded
+    document has a checked namesake (another document: nobody's group member out here)."""
+    names = rng.choice([['g1'], ['g1', 'g2'], ['g1', 'g2'], ['g1', 'G1'], ['g3', '']])
+    depth = rng.choice([1, 1, 2, 2, 3])
+    levels = list(range(-1, depth + 1))          # -1: the document, 0: the outermost form, ...
+    plan = {}
+    for g in names:
+        mode = rng.choice(['one', 'one', 'one', 'two', 'none', 'random'])
+        # (an inner level twice as often as the document / the outermost form)
+        plan[g] = ({rng.choice(levels + levels[2:])} if mode == 'one' else set(rng.sample(levels, 2)) if mode == 'two' else set() if mode == 'none'
+                   else {lv for lv in levels if rng.random() < 0.4})
+        if st is not None:
+            st['nested_plan_' + mode] = st.get('nested_plan_' + mode, 0) + 1
+
+    def radio(g, checked):
+        attrs = [('type', rng.choice(['radio'] * 6 + ['Radio'])), ('name', g)] + ([('checked', rng.choice(['', 'checked']))] if checked else [])
+        if rng.random() < 0.15:
+            attrs.append(('id', 'r%d' % rng.randint(0, 99)))
+        rng.shuffle(attrs)
+        return ('e', 'input', None, None, attrs, [])
+
+    def own(level, p_other=0.3):
+        out = []
+        for g in names:
+            out += [radio(g, False) for _ in range(rng.choice([0, 1, 1, 2] if g != names[0] else [1, 1, 1, 2]))]
+            if level in plan[g]:
+                out.append(radio(g, True))
+        if rng.random() < p_other:
+            out.append(gen.gen_control(rng))
+        if rng.random() < 0.12:
+            g = rng.choice(names)
+            out.append(('e', 'iframe', None, None, [], [('e', 'html', None, None, [], [('e', 'body', None, None, [], [
+                radio(g, True)] + ([radio(g, False)] if rng.random() < 0.5 else []))])]))
+        rng.shuffle(out)
+        return out
+
+    def form(level):
+        kids = own(level)
+        if level < depth:
+            for _ in range(rng.choice([1, 1, 1, 2])):
+                inner = form(level + 1)
+                for _ in range(rng.choice([0, 0, 1, 1, 2])):
+                    # wrappers between the two forms hold controls of the OUTER one
+                    extra = own(level, 0.1) if rng.random() < 0.4 else []
+                    cut = rng.randint(0, len(extra))
+                    inner = ('e', rng.choice(WRAPPERS), None, None, [], extra[:cut] + [inner] + extra[cut:])
+                kids.insert(rng.randint(0, len(kids)), inner)
+        return ('e', 'form', None, None, [], kids)
+
+    kids = own(-1)
+    for _ in range(rng.choice([1, 1, 1, 2])):
+        kids.insert(rng.randint(0, len(kids)), form(0))
+    if st is not None:
+        st['nested_radio_docs'] = st.get('nested_radio_docs', 0) + 1
+    kind = rng.choice(['html', 'html', 'html5'])
+    if rng.random() < 0.9:
+        return kind, [('e', 'html', None, None, [], [('e', 'head', None, None, [], []), ('e', 'body', None, None, [], kids)])]
+    return kind, [k for k in kids if k[0] == 'e' and k[1] == 'form'][:1]       # the outermost form as the root element
+
 
 def xhtml_markup(rng, top):
     if not (top and top[0][0] == 'e' and top[0][1] == 'html'):
@@ -405,8 +500,48 @@ def xhtml_markup(rng, top):
 
 
 def make_cases_factory(state):
+    def emit(rng, kind, top, cases, nested=False):
+        """The tree through the API and the parsers: the laws on each variant, and the variant as correspondence cases."""
+        variants = [('api', gen.build_doc(kind, top), {'kind': kind, 'tree': top})]
+        if rng.random() < (0.8 if nested else 0.5) and top and top[0][1] == 'html':
+            body = gen.to_markup(top)
+            for parser in ('html.parser', 'lxml', 'html5lib'):
+                try:
+                    variants.append((parser, bs4.BeautifulSoup(body, parser), {'markup': body, 'parser': parser}))
+                except Exception:
+                    pass
+        if rng.random() < 0.45:
+            # the same tree as XHTML parsed as XML (lxml-xml): names and the `type` keyword are case-sensitive there
+            xm = xhtml_markup(rng, top)
+            try:
+                variants.append(('xhtml-as-xml', bs4.BeautifulSoup(xm, 'xml'), {'markup': xm, 'parser': 'xml'}))
+                state['xhtml_as_xml'] = state.get('xhtml_as_xml', 0) + 1
+            except Exception:
+                pass
+        for name, soup, src in variants:
+            info = dict(src)
+            info['nested_forms'] = has_nested_forms(soup)
+            try:
+                laws(soup, state, info)
+            except Exception as e:
+                state['bad'].append({'law': f'exception {e!r}', **info})
+            # documents of nested forms: always asked for :indeterminate, and for two of the others
+            for p in ([':indeterminate'] + rng.sample([q for q in PSEUDOS if q != ':indeterminate'], 2) if nested else rng.sample(PSEUDOS, 5)):
+                if 'markup' in src:
+                    cases.append({'markup': src['markup'], 'parser': src['parser'], 'selector': p, 'queries': [('select', [], 0)]})
+                else:
+                    cases.append({'kind': kind, 'tree': top, 'selector': p, 'queries': [('select', [], 0)]})
+
     def make_cases(rng, n):
+        # Forms nested in forms with same-named radios at every level: n/12 cases ON TOP of the n of the other generators, drawn
+        # from a stream of their own (derived from the run's seed without drawing from `rng`)
+        rng2 = random.Random('C17 forms in forms %r' % (rng.getstate()[1][:4],))
         cases = []
+        while len(cases) < n // 12:
+            kind, top = nested_radio_doc(rng2, state)
+            emit(rng2, kind, top, cases, nested=True)
+        cases = cases[:n // 12]
+        n += len(cases)
         while len(cases) < n:
             framed = rng.random() < 0.3
             if framed:
@@ -422,34 +557,7 @@ def make_cases_factory(state):
                 if rng.random() < 0.6:
                     top, _ = inject(top, foreign_form(rng))
                 state['foreignized'] = state.get('foreignized', 0) + 1
-            variants = [('api', gen.build_doc(kind, top), {'kind': kind, 'tree': top})]
-            if rng.random() < 0.5 and top and top[0][1] == 'html':
-                body = gen.to_markup(top)
-                for parser in ('html.parser', 'lxml', 'html5lib'):
-                    try:
-                        variants.append((parser, bs4.BeautifulSoup(body, parser), {'markup': body, 'parser': parser}))
-                    except Exception:
-                        pass
-            if rng.random() < 0.45:
-                # the same tree as XHTML parsed as XML (lxml-xml): names and the `type` keyword are case-sensitive there
-                xm = xhtml_markup(rng, top)
-                try:
-                    variants.append(('xhtml-as-xml', bs4.BeautifulSoup(xm, 'xml'), {'markup': xm, 'parser': 'xml'}))
-                    state['xhtml_as_xml'] = state.get('xhtml_as_xml', 0) + 1
-                except Exception:
-                    pass
-            for name, soup, src in variants:
-                info = dict(src)
-                info['nested_forms'] = has_nested_forms(soup)
-                try:
-                    laws(soup, state, info)
-                except Exception as e:
-                    state['bad'].append({'law': f'exception {e!r}', **info})
-                for p in rng.sample(PSEUDOS, 5):
-                    if 'markup' in src:
-                        cases.append({'markup': src['markup'], 'parser': src['parser'], 'selector': p, 'queries': [('select', [], 0)]})
-                    else:
-                        cases.append({'kind': kind, 'tree': top, 'selector': p, 'queries': [('select', [], 0)]})
+            emit(rng, kind, top, cases)
         return cases[:n]
     return make_cases
 
@@ -468,6 +576,13 @@ def run(chk):
                              'iframe_is_last_child_by_wrapper_depth': {k[len('frame_last_child_depth_'):]: v for k, v in sorted(state.items())
                                                                        if k.startswith('frame_last_child_depth_')},
                              'embedded_document_ends_in': {k[len('frame_tail_'):]: v for k, v in sorted(state.items()) if k.startswith('frame_tail_')},
+                             'documents_of_forms_nested_in_forms_with_same_named_radios_at_every_level': state.get('nested_radio_docs', 0),
+                             'levels_owning_a_checked_member_drawn_as': {k[len('nested_plan_'):]: v for k, v in sorted(state.items())
+                                                                         if k.startswith('nested_plan_')},
+                             'unchecked_form_radios_without_checked_member_but_checked_namesake_in_a_form_nested_inside': state.get(
+                                 'unchecked_radio_with_checked_namesake_in_nested_form', 0),
+                             'unchecked_form_radios_without_checked_member_but_checked_namesake_in_an_enclosing_form': state.get(
+                                 'unchecked_radio_with_checked_namesake_in_enclosing_form', 0),
                              'default_law_documents_skipped_for_same_document_nested_forms': state.get('nested_skipped', 0),
                              'radios_directly_under_iframe_not_judged': state.get('radios_directly_under_iframe_not_judged', 0)})
         for i, b in enumerate(state['bad'][:5]):
